@@ -920,3 +920,58 @@ package pfcp
 //@     unfold nodeInv(s.lnode)
 //@   at call DeleteSess:
 //@     unfold allSessOK(s.lnode)
+
+// Session Establishment.  A-PARSED (assumed of go-pfcp's parser): the grouped-IE lists of a parsed request hold no nil entries.
+//@ pred estReqWF(req *message.SessionEstablishmentRequest) =
+//@      (forall i int :: 0 <= i && i < len(req.CreateFAR) ==> req.CreateFAR[i] != nil) &&
+//@      (forall i int :: 0 <= i && i < len(req.CreateQER) ==> req.CreateQER[i] != nil) &&
+//@      (forall i int :: 0 <= i && i < len(req.CreateURR) ==> ieWF(req.CreateURR[i])) &&
+//@      (forall i int :: 0 <= i && i < len(req.CreatePDR) ==> req.CreatePDR[i] != nil)
+//@ pure func estRejected(s *PfcpServer, req *message.SessionEstablishmentRequest) bool =
+//@      req.NodeID == nil || !ok(req.NodeID.NodeID()) || !(val(req.NodeID.NodeID()) in s.rnodes) || req.CPFSEID == nil || !ok(req.CPFSEID.FSEID())
+
+// The new session is reachable under its own UP-SEID from the moment NewSess returns; the rule loops change only
+// that session (their [isol] invariants) and carry the whole-node invariant as one opaque fact.
+//@ func (s *PfcpServer) handleSessionEstablishmentRequest(req *message.SessionEstablishmentRequest, addr net.Addr)
+//@   requires s != nil && srvInv(s) && req != nil && req.Header != nil && addr != nil && estReqWF(req)
+//@   ensures [inv]    srvInv(s)
+//@   ensures [early]  old(estRejected(s, req)) ==> DP == old(DP) && CREATED == old(CREATED) && (forall id uint64 :: live(s.lnode, id) == old(live(s.lnode, id)))
+//@   ensures [keep]   forall id uint64 :: old(live(s.lnode, id)) ==> live(s.lnode, id) && s.lnode.sess[id-1] == old(s.lnode.sess[id-1])
+//@   ensures [one]    forall a uint64; b uint64 :: live(s.lnode, a) && !old(live(s.lnode, a)) && live(s.lnode, b) && !old(live(s.lnode, b)) ==> a == b
+//@   ensures [isol]   forall k RuleKey :: old(live(s.lnode, k.seid)) ==> ((k in DP) == (k in old(DP))) && ((k in CREATED) == (k in old(CREATED)))
+//@   modifies *
+//@   reveal linked nodesWF
+//@   flag perreturn
+//@   serves C01 C04 C05 C08 C07
+//@   loop range(req.CreateFAR):
+//@     modifies sess.FARIDs[_], DP, CREATED
+//@     invariant [ok]   nodeInv(s.lnode) && sessOK(sess)
+//@     invariant [isol] forall k RuleKey :: k.seid != sess.LocalID ==> ((k in DP) == (k in old(DP))) && ((k in CREATED) == (k in old(CREATED)))
+//@   loop range(req.CreateQER):
+//@     modifies sess.QERIDs[_], DP, CREATED
+//@     invariant [ok]   nodeInv(s.lnode) && sessOK(sess)
+//@     invariant [isol] forall k RuleKey :: k.seid != sess.LocalID ==> ((k in DP) == (k in old(DP))) && ((k in CREATED) == (k in old(CREATED)))
+//@   loop range(req.CreateURR):
+//@     modifies sess.URRIDs[_], DP, CREATED
+//@     invariant [ok]   nodeInv(s.lnode) && sessOK(sess)
+//@     invariant [isol] forall k RuleKey :: k.seid != sess.LocalID ==> ((k in DP) == (k in old(DP))) && ((k in CREATED) == (k in old(CREATED)))
+//@   loop range(req.CreatePDR):
+//@     modifies sess.PDRIDs[_], sess.URRIDs[_].refPdrNum, DP, CREATED
+//@     invariant [ok]   nodeInv(s.lnode) && sessOK(sess)
+//@     invariant [isol] forall k RuleKey :: k.seid != sess.LocalID ==> ((k in DP) == (k in old(DP))) && ((k in CREATED) == (k in old(CREATED)))
+//@   at call NewSess:
+//@     unfold nodeInv(s.lnode)
+//@   after call NewSess:
+//@     assert [n]      nodeWF(rnode) && rnode.local == s.lnode && ret0.rnode == rnode && ret0.LocalID in rnode.sess
+//@     assert [slots]  forall i int :: 0 <= i && i < len(s.lnode.sess) && s.lnode.sess[i] != nil && s.lnode.sess[i] != ret0 ==>
+//@                       i < old(len(s.lnode.sess)) && s.lnode.sess[i] == old(s.lnode.sess[i]) && uint64(i) + 1 != ret0.LocalID
+//@     assert [memold] forall i int :: 0 <= i && i < len(s.lnode.sess) && s.lnode.sess[i] != nil && s.lnode.sess[i] != ret0 ==> old((uint64(i) + 1) in s.lnode.sess[i].rnode.sess)
+//@     assert [mem]    forall i int :: 0 <= i && i < len(s.lnode.sess) && s.lnode.sess[i] != nil && s.lnode.sess[i] != ret0 ==> (uint64(i) + 1) in s.lnode.sess[i].rnode.sess
+//@     assert [linked] linked(s)
+//@   at call NewSessionEstablishmentResponse:
+//@     assert [seid]  arg2 == sess.RemoteID && sess.RemoteID == fseid.SEID && arg3 == req.Header.SequenceNumber
+//@     assert [cause] len(arg5) >= 3 && arg5[len(arg5)-2] == ie.NewCause(ie.CauseRequestAccepted)
+//@     assert [fseid] arg5[len(arg5)-1] == ie.NewFSEID(sess.LocalID, v4, v6)
+//@   at call sendRspTo:
+//@     assert [to]    arg1 == addr && arg0 == iface(rsp)
+//@     assert [addressable] live(s.lnode, sess.LocalID) && s.lnode.sess[sess.LocalID-1] == sess && !old(live(s.lnode, sess.LocalID))
